@@ -70,6 +70,7 @@ def run(chk: Check) -> None:
     terminal_hooks_cannot_fail_on_futures(chk)
     subscription_idempotent(chk)
     inflight_step_released(chk)
+    hooks_outlive_transitions(chk)
 
 
 def subscription_idempotent(chk: Check) -> None:
@@ -533,3 +534,35 @@ def inflight_step_released(chk: Check, rule: str = 'FUT-wait-release') -> None:
                 chk.ob(rule, ex, True, f'{c.name}: every transition made outside the step runs with no step in flight or interrupts the state first', kind=f'inflight-step-released:{c.name}', expr=key)
     chk.units['state_awaits_on_own_futures'] = n
     chk.need(n >= 1, 'no state awaits a future of its own: the in-flight release rule has nothing to examine')
+
+
+def hooks_outlive_transitions(chk: Check, rule: str = 'DISP-hooks-registered') -> None:
+    """The hooks that resolve the process future and notify the listeners are state-event callbacks.  They may be dropped only once no
+    transition can follow, i.e. where the process is KNOWN to be terminated: one obligation per calling context of every statement that
+    clears the callback table.  (``close()`` is public and not restricted to terminated processes: close(), then kill() or a failing
+    callback, enters a terminal state with nobody listening -- the future stays pending, no listener is told.)"""
+    from ..facts import TERMINAL_KEY
+    from ..rules import Contexts, effective_writers
+    prog = chk.prog
+    cx = Contexts(chk.ctx)
+    proc = prog.cls('processes.Process')
+    n = 0
+    for f, node in effective_writers(prog, '_event_callbacks'):
+        if f.owner_class is None or not f.owner_class.is_subclass_of(proc) or f.name in ('__init__',):
+            continue
+        stmt = [m for m in ast.walk(f.node) if isinstance(m, ast.Assign) and any(t is node for t in m.targets)]
+        if not stmt or not (isinstance(stmt[0].value, ast.Dict) and not stmt[0].value.keys):
+            continue
+        n += 1
+        seen = set()
+        for cname, entry in cx.contexts(f, 3):
+            ff = chk.ctx.facts.analyse(f, entry)
+            nodes = [m for m in ff.cfg.nodes if m.ast is stmt[0]]
+            ok = bool(nodes) and all(('T', TERMINAL_KEY) in ff.at(m) for m in nodes)
+            if (cname, ok) in seen:
+                continue
+            seen.add((cname, ok))
+            chk.ob(rule, f, ok, f'the state-event hooks are dropped in context [{cname}] ' + ('where the process is known to be terminated' if ok else
+                   'without the process being known to be terminated: a later kill() / fail() enters its terminal state with no hook left -- on_kill / on_except never run, the '
+                   'future is never resolved and no listener is notified'), node=stmt[0], kind=f'hooks-dropped:{cname}')
+    chk.ob(rule, proc.qualname, n >= 1, f'{n} statement(s) clearing the state-event callbacks examined', kind='hooks-dropped-scan', expr='_event_callbacks')
